@@ -191,6 +191,25 @@ func main() {
 	sort.Strings(out.FlagWrites)
 	out.FlagWrites = uniq(out.FlagWrites)
 	out.Unsupported = uniq(out.Unsupported)
+	sort.Slice(out.PureCalls, func(i, j int) bool {
+		if out.PureCalls[i].Name != out.PureCalls[j].Name {
+			return out.PureCalls[i].Name < out.PureCalls[j].Name
+		}
+		return out.PureCalls[i].Src < out.PureCalls[j].Src
+	})
+	for _, pc := range out.PureCalls {
+		sort.Strings(pc.Procs)
+	}
+	for m := range pureMethods {
+		out.PureMethods = append(out.PureMethods, m)
+	}
+	sort.Strings(out.PureMethods)
+	for f, cls := range pkgFuncs {
+		if cls == "pure" {
+			out.PurePkgFunc = append(out.PurePkgFunc, f)
+		}
+	}
+	sort.Strings(out.PurePkgFunc)
 
 	os.MkdirAll(*outDir, 0o755)
 	jb, _ := json.MarshalIndent(out, "", " ")
